@@ -75,7 +75,7 @@ def run_one(stage, case, ctx, journal=None):
     if journal is not None:
         journal.write(stage["name"], case)
     ctx.begin(case)
-    signal.setitimer(signal.ITIMER_REAL, stage.get("watchdog_s", WATCHDOG_S))
+    signal.setitimer(signal.ITIMER_PROF, stage.get("watchdog_s", WATCHDOG_S))
     try:
         stage["run"](case, ctx)
         return None
@@ -103,7 +103,7 @@ def run_one(stage, case, ctx, journal=None):
             raise HarnessError("harness exception in stage %s: %s\ncase=%r" % (stage["name"], short_tb(e), case))
         return v
     finally:
-        signal.setitimer(signal.ITIMER_REAL, 0)
+        signal.setitimer(signal.ITIMER_PROF, 0)
 
 
 def run_hyp_stage(stage, tier, shard, nshards, seed, ctx, journal, shrink_limit):
@@ -172,13 +172,13 @@ def run_enum_stage(stage, tier, shard, nshards, ctx, journal):
     for case in stage["gen"](tier, shard, nshards):
         if batch:
             ctx.case = case
-            signal.setitimer(signal.ITIMER_REAL, WATCHDOG_S * 30)
+            signal.setitimer(signal.ITIMER_PROF, WATCHDOG_S * 30)
             try:
                 stage["run"](case, ctx)
             except WatchdogTimeout:
                 ctx.report("timeout/watchdog", "batch did not finish", case)
             finally:
-                signal.setitimer(signal.ITIMER_REAL, 0)
+                signal.setitimer(signal.ITIMER_PROF, 0)
             continue
         v = run_one(stage, case, ctx, journal)
         if v is not None:
@@ -289,7 +289,7 @@ def main():
     ap.add_argument("--shrink-limit", type=float, default=60.0)
     a = ap.parse_args()
 
-    signal.signal(signal.SIGALRM, _alarm)
+    signal.signal(signal.SIGPROF, _alarm)      # CPU-time watchdog (ITIMER_PROF): a loaded machine cannot trip it, a run-away computation does
     os.environ["VERIF_SHARD"] = str(a.shard)
     if "LD_PRELOAD" not in os.environ:
         # a run-away case (e.g. a search that no longer terminates) must not exhaust the machine before the watchdog
